@@ -125,6 +125,12 @@ EDITS = {
          "        base_batch_size = n_tasks // n_batches\n        rmdr = n_tasks % n_batches\n",
          "        base_batch_size, rmdr = divmod(n_tasks, n_batches)\n"),
     ]),
+    # tolerating "already gone" in the clean-up itself (and only there) loses nothing (round 6: `with contextlib.suppress` is modelled)
+    "tempfile-cleanup-tolerates-missing-file": (["C13"], [
+        ("thejoker/utils.py", "            finally:\n                os.unlink(f.name)\n",
+         "            finally:\n                with contextlib.suppress(FileNotFoundError):\n                    os.unlink(f.name)\n"),
+        ("thejoker/utils.py", "import os\n", "import contextlib\nimport os\n"),
+    ]),
     "dtype_compare-hoist": (["C12"], [
         ("thejoker/samples_helpers.py",
          "        for k in set(list(d1.keys()) + list(d2.keys())):\n",
